@@ -451,6 +451,30 @@ fn extraction_case(rng: &mut Rng, rep: &mut Report, use_extract_archives: bool) 
         } else {
             None
         };
+        // a re-used target directory: some of the requested members are there already (left by an earlier extraction of
+        // the same archive with a narrower pattern); they are skipped but reported, the others are still extracted
+        if let Some(names) = &filter {
+            if rng.chance(1, 3) {
+                let mut pre = 0;
+                for name in names {
+                    let unique = members.iter().filter(|m| normalize(Path::new(&m.name)) == normalize(Path::new(name))).count() == 1;
+                    if unique && !leads_outside(name) && rng.chance(1, 3) {
+                        let p = target.join(name);
+                        if let Some(parent) = p.parent() {
+                            let _ = std::fs::create_dir_all(parent);
+                        }
+                        if let Some(m) = members.iter().find(|m| &m.name == name) {
+                            if std::fs::write(&p, &m.data).is_ok() {
+                                pre += 1;
+                            }
+                        }
+                    }
+                }
+                if pre > 0 {
+                    rep.inc("extractions_into_a_reused_directory");
+                }
+            }
+        }
         let vols = split_volumes(rng, &zip);
         let chain = SeekableChain::new(vols.into_iter().map(Cursor::new).collect::<Vec<_>>());
         let res = crate::guard::catch(|| extract_to_dir(chain, &target, filter.clone(), &HashMap::new(), &shall_cancel));
